@@ -608,8 +608,71 @@ def r3(ctx, cfg):
         ctx.ob(R, key, "missing-delegation-is-an-error", ok, "update_stake(sub) does not reject a missing delegation", fn=f, sample="shares.ok_or_else(..)?")
 
 
+QUEUE_WRITERS = {
+    # who saves the unbonding queue, and what it may do to the loaded queue before saving it.  `process_queue` pays from the
+    # front and stops at the first entry that is not due: every writer has to leave the queue in the order of maturity,
+    # and every undelegation has to stay an entry of its own
+    "<staking::StakeKeeper as module::Module>::execute": ({"push_back"}, "appends the new entry at the back"),
+    "staking::StakeKeeper::slash": ({"iter_mut", "get_mut", "index_mut", "front_mut", "back_mut"},      # (single entries; a slice handed out could be sorted)
+                                    "changes amounts in place"),
+    "staking::StakeKeeper::process_queue": ({"pop_front"}, "takes due entries from the front"),
+}
+
+
+def queue_mutations(o):
+    """what happened to the value `o` between being loaded and being used: the names of the methods it was lent to mutably, and
+    the fields written directly, outermost layer last.  Returns (base origin, [names])"""
+    names = []
+    while o[0] in ("vp", "upd", "ok", "some") or (o[0] == "call" and o[1].rsplit("::", 1)[-1] in ("unwrap_or_default", "unwrap_or", "unwrap", "expect") and o[2]):
+        if o[0] in ("ok", "some"):
+            o = o[1]
+            continue
+        if o[0] == "call":
+            o = o[2][0]
+            continue
+        if o[0] == "upd":
+            for pth, v in o[2]:
+                if pth and pth[0] == "&mut" and v[0] == "mutby":
+                    names.append(v[1].rsplit("::", 1)[-1])
+                else:
+                    names.append("write:" + ".".join(str(x) for x in pth))
+            o = o[1]
+        else:
+            o = o[2]
+    return o, names
+
+
+def r_queue_order(ctx, cfg, R="C14.R4"):
+    """"paid back ... by the first block update at or after the unbonding period": the queue stays sorted by maturity because every
+    function that saves it saves the queue it loaded, changed only in the way its role allows (table QUEUE_WRITERS) - no
+    removal from the middle, no swap, no sort, no insertion anywhere but the back; a new writer needs a decision"""
+    F, P = cfg.facts, cfg.prov
+    n = 0
+    for f in F.user_fns():
+        if f.file != "src/staking.rs" or f.kind == "closure":
+            continue
+        sv = store_calls(P, f, QUEUE, ("save",))
+        if not sv:
+            continue
+        role = QUEUE_WRITERS.get(f.key)
+        if role is None:
+            ctx.fail(R, f.key, "queue-writer-unknown", "%s saves the unbonding queue but is not one of its known writers %s" % (f.key, sorted(QUEUE_WRITERS)), fn=f)
+            continue
+        for b, t in sv:
+            n += 1
+            base, names = queue_mutations(P.call_args(f, t, b)[2])
+            base = peel(base)
+            loaded = base[0] == "call" and base[1] in ("cw_storage_plus::Item::may_load", "cw_storage_plus::Item::load") and peel(base[2][0]) == QUEUE
+            extra = sorted(set(names) - role[0])
+            ctx.ob(R, f.key, "saves-the-loaded-queue-in-maturity-order", loaded and not extra,
+                   "%s saves %s changed by %s; it %s and may use only %s" % (f.key.rsplit("::", 1)[-1], "the loaded queue" if loaded else fmt(base)[:80], names, role[1], sorted(role[0])),
+                   fn=f, line=t["line"], sample="%s: %s" % (role[1], sorted(set(names))))
+    ctx.floor(R, "functions saving the unbonding queue", n, 3)
+
+
 def r4(ctx, cfg, R="C14.R4", parts=("Delegate", "Undelegate", "Redelegate")):
     F, P = cfg.facts, cfg.prov
+    r_queue_order(ctx, cfg, R)
     f = ctx.need_fn(R, EXEC)
     if f is None:
         return
